@@ -195,7 +195,8 @@ def evaluate(case, out):
             try:
                 p = os.path.join(d, "in.raire")
                 with open(p, "w", newline="") as fh:
-                    csv.writer(fh).writerows(rows)
+                    # (a CSV writer may quote every field; quotes are not part of the identifiers)
+                    csv.writer(fh, quoting=csv.QUOTE_ALL if len(rows) % 3 == 0 else csv.QUOTE_MINIMAL).writerows(rows)
                 res = CVR.from_raire_file(p)
                 cvrs = res[0]
                 out.expect(res[2] == len(cvrs), "raire:unique-id-count", lambda: res[1:])
